@@ -349,6 +349,16 @@ def setAll : Coll → List (Name × Owner) → Coll
   | m, [] => m
   | m, (n, v) :: rest => setAll (cset m n v) rest
 
+/-- COUNTERFACTUAL, not the code: `dict.setdefault` for every pair (an existing entry is kept).  Only used in an
+`example` of Properties/C16 showing that it is the unconditional overwrite, performed after the user's globals
+were taken, that protects the language globals. -/
+def setDefaultAll : Coll → List (Name × Owner) → Coll
+  | m, [] => m
+  | m, (n, v) :: rest =>
+    setDefaultAll (match cget m n with
+      | some _ => m
+      | none => cset m n v) rest
+
 def dropPrefix? (pre n : Name) : Option Name :=
   if pre.isPrefixOf n then some (n.drop pre.length) else none
 
